@@ -140,6 +140,13 @@ def build_frame(keys, recs, layout):
 
     df = pd.DataFrame({j: column(i) for j, i in enumerate(other_pos)})
     df.columns = pd.Index([names[i] for i in other_pos], dtype=object)
+    if layout.get("cat"):
+        for j, i in enumerate(other_pos):
+            if cols[i][0] == "dim":
+                try:
+                    df[df.columns[j]] = df[df.columns[j]].astype("category")
+                except (TypeError, ValueError):
+                    pass  # labels that cannot form categories stay as they are
     if idx_pos:
         arrays = [[row[i] for row in rows] for i in idx_pos]
         inames = [names[i] if style != "items-only" else None for i in idx_pos]
